@@ -275,9 +275,194 @@ def lemma_unit(res):
     return res
 
 
+FLAGS = dict(LD="is_load_instruction", TP="tp_unknown", LT="lt_unknown", NB="not_bound", HAS_LD="performs_load", HAS_ST="performs_store")
+SEM_FILES = ["osaca/parser/operand.py", "osaca/parser/register.py", "osaca/parser/memory.py", "osaca/parser/immediate.py",
+             IF, HW, ISA, AS]
+
+
+def sem_engine():
+    ex = Engine([REPO + "/" + f for f in SEM_FILES])
+    ex.no_init |= {"ParserX86ATT", "ParserAArch64", "MachineModel"}
+    return ex
+
+
+def new_iform(ex, **kw):
+    return ex.instantiate("InstructionForm", kw=kw)
+
+
+def handle_found_unit(res):
+    """_handle_instruction_found: pressure = uniform split of the matched entry's micro-ops, micro-op list shared by
+    identity, zero vector + tp_unknown when the vector has the wrong length, None throughput/latency -> 0.0 + flag."""
+    ex = sem_engine()
+    P, PN = z3.Int("P"), z3.Int("port_number")
+    arr = z3.Array("pp", I, R)
+    total = z3.Real("pp_sum")
+    for tp_none in (False, True):
+        for lt_none in (False, True):
+            for has_ld in (False, True):
+                def run():
+                    pp = SymList(arr, P, False)
+                    pp.sum_fn = lambda ex_: SNum(total, False)
+                    uops = SymSeq(z3.Int("U"), lambda i: (SNum(z3.Real("c"), False), "0"))
+                    ex.abstract["average_port_pressure"] = lambda ex_, so, a, kw: pp if a[0] is uops else ex_.oblige("avg-arg", False)
+                    mm = SObj("MachineModel", _data={})
+                    sem = SObj("ArchSemantics", _machine_model=mm, _isa="x86")
+                    data = new_iform(ex, mnemonic="ADD", throughput=None if tp_none else SNum(z3.Real("tp"), False),
+                                     latency=None if lt_none else SNum(z3.Real("lat"), False), port_pressure=uops)
+                    iform = new_iform(ex, mnemonic="add")
+                    iform.fields["_flags"] = [FLAGS["HAS_LD"]] if has_ld else []
+                    flags = []
+                    ex.extra.update(pp=pp, uops=uops, iform=iform, flags=flags, data=data)
+                    return ex.call_method("ArchSemantics", "_handle_instruction_found", sem, [data, SNum(PN, True), iform, flags])
+
+                paths = ex.explore(run, [P >= 0, PN >= 0])
+
+                def post(v, p):
+                    e = p.extra
+                    f, fl = e["iform"].fields, e["flags"]
+                    if not (isinstance(v, tuple) and len(v) == 4):
+                        return False
+                    tp, vpp, lat, lwl = v
+                    g = []
+                    okshape = P == PN
+                    good = f["_port_pressure"] is e["pp"] and f["_port_uops"] is e["uops"]
+                    zero = isinstance(f["_port_pressure"], SymSeq) and f["_port_uops"] == []
+                    g.append(z3.If(okshape, z3.BoolVal(good and FLAGS["TP"] not in fl or (good and tp_none)), z3.BoolVal(zero and FLAGS["TP"] in fl)))
+                    if zero:
+                        zz = f["_port_pressure"]
+                        jj = z3.Int("jj")
+                        g.append(z3.And(zz.length == PN, z3.ForAll([jj], z3.Implies(z3.And(0 <= jj, jj < PN), real_term(zz.at(jj)) == 0))))
+                    g.append(z3.BoolVal(vpp is e["pp"]))
+                    g.append(z3.BoolVal((FLAGS["TP"] in fl) == (tp_none or zero)))
+                    g.append(z3.BoolVal((FLAGS["LT"] in fl) == lt_none))
+                    g.append(z3.BoolVal((FLAGS["LD"] in fl) == has_ld))
+                    g.append(ex.eq_term(tp, Fraction(0)) if tp_none else ex.eq_term(tp, e["data"].fields["_throughput"]))
+                    g.append(ex.eq_term(lat, Fraction(0)) if lt_none else ex.eq_term(lat, e["data"].fields["_latency"]))
+                    g.append(ex.eq_term(lwl, lat))
+                    if not tp_none:
+                        g.append(z3.Implies(okshape, z3.BoolVal(FLAGS["NB"] in fl) == (total == 0)))
+                    else:
+                        g.append(z3.BoolVal(FLAGS["NB"] not in fl))
+                    return z3.And(g)
+
+                res.add_paths(paths, post, kind=f"post[tpNone={tp_none},ltNone={lt_none},ld={has_ld}]")
+    return res
+
+
+def tp_lt_trivial_unit(res):
+    """assign_tp_lt: a line without mnemonic and an instruction unknown to the model (and to the register-form
+    composition) get a zero pressure vector of length |ports|, throughput 0.0 (so they are excluded from the
+    totals) and latency 0; the unknown instruction carries both *_unknown flags."""
+    ex = sem_engine()
+    P = z3.Int("P")
+    jj = z3.Int("jj")
+
+    def zero_vec(v):
+        return isinstance(v, SymSeq) and z3.And(v.length == P, z3.ForAll([jj], z3.Implies(z3.And(0 <= jj, jj < P), real_term(v.at(jj)) == 0)))
+
+    for isa in ("x86", "aarch64"):
+        for case in ("nomnemonic", "unknown", "unknown+ld", "unknown+st"):
+            def run():
+                ports = SymSeq(P, lambda i: StrId(z3.Select(z3.Array("pl", I, I), i)))
+                mm = SObj("MachineModel", _data={"ports": ports, "isa": isa})
+                sem = SObj("ArchSemantics", _machine_model=mm, _isa=isa, _parser=SObj("ParserX86ATT" if isa == "x86" else "ParserAArch64"))
+                ex.abstract["get_instruction"] = lambda ex_, so, a, kw: None
+                mn = None
+                if case != "nomnemonic":
+                    mn = BStr.fresh("mn", 5)
+                    ex.assume(z3.And(mn.wf(), mn.length >= 1))
+                reg = ex.instantiate("RegisterOperand", kw=dict(name="rax") if isa == "x86" else dict(prefix="x", name="1"))
+                mem = ex.instantiate("MemoryOperand", kw=dict(base=reg))
+                ops = [reg, mem] if case in ("unknown+ld", "unknown+st") else [reg]
+                iform = new_iform(ex, mnemonic=mn, operands=ops)
+                iform.fields["_flags"] = {"unknown+ld": [FLAGS["HAS_LD"]], "unknown+st": [FLAGS["HAS_ST"]]}.get(case, [])
+                iform.fields["_semantic_operands"] = {"source": [mem] if case == "unknown+ld" else [], "destination": [mem] if case == "unknown+st" else [], "src_dst": []}
+                ex.extra["iform"] = iform
+                ex.call_method("ArchSemantics", "assign_tp_lt", sem, [iform])
+                return iform
+
+            paths = ex.explore(run, [P >= 0])
+
+            def post(v, p):
+                f = v.fields
+                zv = zero_vec(f["_port_pressure"])
+                if zv is False:
+                    return False
+                g = [zv, ex.eq_term(f["_throughput"], Fraction(0)), ex.eq_term(f["_latency"], Fraction(0)),
+                     ex.eq_term(f["_latency_wo_load"], Fraction(0)), z3.BoolVal(f["_port_uops"] == [])]
+                unk = FLAGS["TP"] in f["_flags"] and FLAGS["LT"] in f["_flags"]
+                g.append(z3.BoolVal(unk == (case != "nomnemonic")))
+                return z3.And(g)
+
+            def conc(m, p, isa=isa, case=case):
+                n = m.eval(P, model_completion=True).as_long()
+                mn = None
+                for k_, v_ in p.extra["iform"].fields.items():
+                    if k_ == "_mnemonic" and isinstance(v_, BStr):
+                        mn = v_.concretize(m)
+                return dict(replay="c01_trivial", args=dict(isa=isa, case=case, nports=n, mnemonic=mn), key="tp_lt-trivial")
+
+            res.add_paths(paths, post, concretize=conc, kind=f"{isa}/{case}")
+    return res
+
+
+def tpsum_unit(res):
+    """Pb: get_throughput_sum for kernels of <= 3 lines over 3 ports, all values symbolic:
+    result[j] = round2(sum of pp_i[j] over the lines with throughput != 0); [] when there is none."""
+    ex = sem_engine()
+    NP = 3
+    for klen in (0, 1, 2, 3):
+        pp = [[z3.Real(f"pp{i}_{j}") for j in range(NP)] for i in range(klen)]
+        tp = [z3.Real(f"tp{i}") for i in range(klen)]
+
+        def run():
+            kernel = []
+            for i in range(klen):
+                f = new_iform(ex, mnemonic="x")
+                f.fields["_port_pressure"] = [SNum(x, False) for x in pp[i]]
+                f.fields["_throughput"] = SNum(tp[i], False)
+                kernel.append(f)
+            return ex.call_method("ArchSemantics", "get_throughput_sum", None, [kernel])
+
+        paths = ex.explore(run, [])
+
+        def post(v, p):
+            if not isinstance(v, list):
+                return False
+            anytp = z3.Or([t != 0 for t in tp] + [z3.BoolVal(False)])
+            if len(v) == 0:
+                return z3.Not(anytp)
+            if len(v) != NP:
+                return False
+            g = [anytp]
+            k = z3.Int("kk")
+            for j in range(NP):
+                tot = z3.RealVal(0)
+                for i in range(klen):
+                    tot = tot + z3.If(tp[i] != 0, pp[i][j], 0)
+                r = real_term(v[j])
+                kt = z3.ToInt(r * 100)
+                d = tot * 100 - z3.ToReal(kt)
+                g.append(z3.And(r * 100 == z3.ToReal(kt), d <= z3.RealVal("1/2"), d >= z3.RealVal("-1/2"),
+                                z3.Implies(z3.Or(d == z3.RealVal("1/2"), d == z3.RealVal("-1/2")), kt % 2 == 0)))
+            return z3.And(g)
+
+        def conc(m, p):
+            fr = lambda t: str(Fraction(m.eval(t, model_completion=True).numerator_as_long(), m.eval(t, model_completion=True).denominator_as_long()))
+            return dict(replay="c01_tpsum", args=dict(pp=[[fr(x) for x in row] for row in pp], tp=[fr(t) for t in tp]), key="tpsum")
+
+        res.add_paths(paths, post, concretize=conc, kind=f"klen{klen}", label="Pb")
+    return res
+
+
 def units(tier):
     return [
         Unit("C01/average_port_pressure", avg_unit, "P", [(HW, "MachineModel.average_port_pressure")]),
         Unit("C01/average_port_pressure/Pb-floor", avg_pb_unit, "Pb", [(HW, "MachineModel.average_port_pressure")]),
         Unit("C01/lemmas/uniform-split-feasible", lemma_unit, "L", []),
+        Unit("C01/_handle_instruction_found", handle_found_unit, "P", [(AS, "ArchSemantics._handle_instruction_found")]),
+        Unit("C01/assign_tp_lt/no-data-branches", tp_lt_trivial_unit, "P", [(AS, "ArchSemantics.assign_tp_lt")]),
+        Unit("C01/get_throughput_sum", tpsum_unit, "Pb", [(AS, "ArchSemantics.get_throughput_sum")]),
+        bounded_unit("C01/assign_optimal_throughput/feasibility", "c01_optimal", [(AS, "ArchSemantics.assign_optimal_throughput")],
+                     extra_args=["c01"], timeout=1500),
     ]
